@@ -15,6 +15,9 @@ make_scratch() {
   mkdir -p "$d/internal/simrt" "$d/internal/verifsim"
   rsync -a "${VERIF_SIMRT_DIR:-$VERIF/simrt}/" "$d/internal/simrt/" || infra "rsync simrt"       # (overrides: development only)
   rsync -a "${VERIF_HARNESS_DIR:-$VERIF/harness}/" "$d/internal/verifsim/" || infra "rsync harness"
-  [ -x "$VERIF/bin/instrument" ] || (cd "$VERIF/tools/instrument" && go build -o "$VERIF/bin/instrument" .) || infra "build instrument"
-  (cd "$d" && "$VERIF/bin/instrument" -dir "$d" -sites "$d/sites.json") || infra "instrument failed"
+  if [ ! -x "$VERIF/bin/instrument" ] || [ "$VERIF/tools/instrument/main.go" -nt "$VERIF/bin/instrument" ]; then
+    mkdir -p "$VERIF/bin"
+    (cd "$VERIF/tools/instrument" && go build -o "$VERIF/bin/instrument" .) || infra "build instrument"
+  fi
+  (cd "$d" && "$VERIF/bin/instrument" -dir "$d" -sites "$d/sites.json" $VERIF_INSTR_FLAGS) || infra "instrument failed"
 }
